@@ -546,4 +546,6 @@ def run(src, out):
     formulas.run(src, out, hdr)
     import auer
     auer.run(src, out, hdr)
+    import childgen
+    childgen.run(src, out, hdr)
     return hdr
